@@ -26,6 +26,18 @@ theorem blocks_irrelevant (t : Ty) (part₁ part₂ : List Nat) (items : List Va
     decBlocks t f₂ (encBlocks t part₂ items ++ rest) = some (items, rest) :=
   ⟨decBlocks_encBlocks t part₁ items f₁ rest h₁ hf₁ ht, decBlocks_encBlocks t part₂ items f₂ rest h₂ hf₂ ht⟩
 
+/-- an empty batch handed to the writer is no item: written before, between or after the other batches it leaves the bytes of
+    the stream unchanged (in particular it does not write the `0` that ends the stream) -/
+theorem empty_batch_writes_nothing (t : Ty) (before after : List Nat) (items : List Val) :
+    encBlocks t (before ++ 0 :: after) items = encBlocks t (before ++ after) items := by
+  induction before generalizing items with
+  | nil => simp [encBlocks]
+  | cons n r ih =>
+    simp only [List.cons_append, encBlocks]
+    split
+    · exact ih items
+    · rw [ih]
+
 theorem any_read_schedule_is_a_prefix (ops : List BS.Op) (part : List Nat) (items : List Val)
     (hp : BS.partSum' part = items.length) (hpos : ∀ n ∈ part, 0 < n) (hok : BS.opsOk ops) :
     (BS.runOps ops (BS.init part items) []).1 ++ (BS.runOps ops (BS.init part items) []).2.items = items := by
